@@ -863,7 +863,10 @@ impl Sem {
                     _ => None,
                 };
                 // on a construct that a (neutral) block alternate replaces: gone with the construct
-                if accepted.iter().any(|p| p.probe == Probe::TickCopy && p.func == inj.func && inj.at >= p.at && inj.at < p.at + 6) {
+                // (function-level probes carry position 0 but belong to the function, not to its first instruction)
+                if !matches!(inj.mode, Mode::FuncEntry | Mode::FuncExit)
+                    && accepted.iter().any(|p| p.probe == Probe::TickCopy && p.func == inj.func && inj.at >= p.at && inj.at < p.at + 6)
+                {
                     exp.clear();
                     out.ob("probe-on-replaced-construct_checked");
                 }
